@@ -317,7 +317,8 @@ class Engine(object):
                     raise Unsupported('set.update from %s' % c.kind)
                 self.check_write(ex, ('sets', base.t), path, e)
                 x = hp.fresh('x!up', H)
-                path.heap = h.with_(sets=z3.Store(h['sets'], base.t, z3.Lambda([x], z3.Or(h.set_of(base.t)[x], c.mem[x]))))
+                path.heap = h.with_(sets=z3.Store(h['sets'], base.t, ex.name_array(
+                    path, z3.Lambda([x], z3.Or(h.set_of(base.t)[x], c.mem[x])))))
                 return hp.NONE
         if base.ty == 'list':
             if attr == 'append' and args[0].ty == 'H':
@@ -342,7 +343,8 @@ class Engine(object):
                 c = ex.as_coll(args[0], path, 'extend from')
                 self.check_write(ex, ('sets', base.t), path, e)
                 x = hp.fresh('x!ex', H)
-                path.heap = h.with_(sets=z3.Store(h['sets'], base.t, z3.Lambda([x], z3.Or(h.set_of(base.t)[x], c.mem[x]))))
+                path.heap = h.with_(sets=z3.Store(h['sets'], base.t, ex.name_array(
+                    path, z3.Lambda([x], z3.Or(h.set_of(base.t)[x], c.mem[x])))))
                 return hp.NONE
         if base.ty == 'clist' and attr == 'append':
             base.x.append(args[0])
